@@ -463,6 +463,16 @@ def run_shard(spec, acc, ctx):
 
 
 def replay(case, acc, ctx):
+    if case.get("generations") or case.get("interrupted"):
+        # these witnesses are whole workloads on one long-lived object: run the workload again for that scheme
+        from props import _search_engine as eng
+        spec_ = {"schemes": [case["scheme"]], "rounds": 3, "generations": 80}
+        if case.get("generations"):
+            eng.run_generations(spec_, acc, ctx, "both", sig_prefix="silent-")
+        else:
+            eng.run_interrupted(spec_, acc, ctx, "both", sig_prefix="silent-")
+        acc.count("replayed")
+        return
     scheme, cfg = case["scheme"], case["cfg"]
     if "db" in case and "keyword" in case:
         st = sse.Setup(scheme, copy.deepcopy(cfg), copy.deepcopy(case["db"]))
